@@ -25,6 +25,14 @@ func main() {
 		fmt.Fprintln(os.Stderr, "usage: harness gen|run <ID> ...")
 		os.Exit(2)
 	}
+	if os.Args[1] == "xlate" {
+		repo := "/repo"
+		if len(os.Args) > 3 {
+			repo = os.Args[3]
+		}
+		fmt.Print(xlate(repo))
+		return
+	}
 	p := properties[os.Args[2]]
 	if p == nil {
 		fmt.Fprintln(os.Stderr, "unknown property", os.Args[2])
